@@ -25,7 +25,7 @@ def run_property(pid: str, tier: str, seed: int) -> int:
     mod = importlib.import_module(f"props.{pid.lower()}")
     rep: Report = mod.run(ctx)
     known = core.load_known_findings()
-    baseline = load_baseline().get(pid, {})
+    baseline = {} if os.environ.get("VERIF_NO_BASELINE") == "1" else load_baseline().get(pid, {})
 
     # ---- vacuity guards ----------------------------------------------------
     names = [o.name for o in rep.obligations]
